@@ -7,8 +7,10 @@ import (
 	"go/ast"
 	"go/constant"
 	"go/types"
+	"sort"
 	"strings"
 
+	"golang.org/x/tools/go/packages"
 	"golang.org/x/tools/go/ssa"
 )
 
@@ -162,28 +164,39 @@ func (e *SpecEnv) lookupType(name string) (types.Type, error) {
 // findPkg resolves a package name as used in the scope package's imports, then globally if unique.
 func (e *SpecEnv) findPkg(name string) *types.Package {
 	if e.pkg != nil {
+		// names as the package's own source files see them (import aliases included)
+		if m := e.vc.eng.importNames(e.pkg.Path()); m != nil {
+			if path, ok := m[name]; ok {
+				if p := e.vc.eng.TPkgs[path]; p != nil {
+					return p
+				}
+			}
+		}
 		if e.pkg.Name() == name {
 			return e.pkg
 		}
-		for _, ip := range e.pkg.Imports() {
-			if ip.Name() == name {
-				return ip
-			}
-		}
 	}
-	var found *types.Package
+	var cands []*types.Package
 	for _, p := range e.vc.eng.TPkgs {
 		if p.Name() == name {
-			if found != nil && found != p {
-				// ambiguous: prefer repo packages that are not internal
-				if strings.Contains(p.Path(), "/internal/") {
-					continue
-				}
-			}
-			found = p
+			cands = append(cands, p)
 		}
 	}
-	return found
+	sort.Slice(cands, func(a, b int) bool {
+		ia, ib := strings.Contains(cands[a].Path(), "/internal/"), strings.Contains(cands[b].Path(), "/internal/")
+		if ia != ib {
+			return !ia // non-internal packages first
+		}
+		ra, rb := strings.HasPrefix(cands[a].Path(), repoModule), strings.HasPrefix(cands[b].Path(), repoModule)
+		if ra != rb {
+			return ra
+		}
+		return cands[a].Path() < cands[b].Path()
+	})
+	if len(cands) > 0 {
+		return cands[0]
+	}
+	return nil
 }
 
 func constTerm(vc *VC, c *types.Const) (Term, bool) {
@@ -937,4 +950,35 @@ func (vc *VC) resolveLocal(name string, at *ssa.BasicBlock, heap Heap, phiOverri
 		return Term{S: vc.loadAddrIn(heap, a), Sort: vc.sortOf(elem), T: elem}, true
 	}
 	return t, true
+}
+
+// importNames maps the local names of the imports of a repo package (alias or package name) to import paths.
+func (e *Engine) importNames(pkgPath string) map[string]string {
+	if e.impNames == nil {
+		e.impNames = map[string]map[string]string{}
+		packages.Visit(e.Pkgs, nil, func(p *packages.Package) {
+			if !strings.HasPrefix(p.PkgPath, repoModule) {
+				return
+			}
+			m := map[string]string{}
+			for _, f := range p.Syntax {
+				for _, is := range f.Imports {
+					path := strings.Trim(is.Path.Value, "\"")
+					name := ""
+					if is.Name != nil {
+						name = is.Name.Name
+					} else if ip := p.Imports[path]; ip != nil {
+						name = ip.Name
+					}
+					if name != "" && name != "_" && name != "." {
+						if _, dup := m[name]; !dup {
+							m[name] = path
+						}
+					}
+				}
+			}
+			e.impNames[p.PkgPath] = m
+		})
+	}
+	return e.impNames[pkgPath]
 }
